@@ -660,6 +660,13 @@ CORPUS = [
           script=[["ask", 4, 1], ["tell_nth", 1], ["tell_nth", 2], ["tell_nth", 0], ["tell_nth", 0], ["ask", 1, 1], ["tell_all"], ["ask", 2, 1]]),
     _rect([(-1, 3), (0, 1)], name="first_refinement_three_corners_in", loss="uniform", expect="pass",
           script=[["ask", 4, 1], ["tell_nth", 3], ["tell_nth", 0], ["tell_nth", 0], ["ask", 1, 1], ["tell_all"], ["ask", 1, 1]]),
+    # random bootstrap points (more points asked for than corners, before any triangulation exists), one of them evaluated,
+    # everything else discarded, then the same request again: nothing handed out may be evaluated already
+    _rect([(-1, 1), (-1, 1)], name="random_phase_discard_and_ask_again", discard=True, expect="pass",
+          script=[["ask", 7, 1], ["tell_nth", 5], ["remove_unfinished"], ["ask", 7, 1], ["tell_nth", 6], ["remove_unfinished"], ["ask", 6, 1],
+                  ["tell_all"], ["ask", 2, 1]]),
+    _rect([(0, 1), (0, 2), (-1, 1)], name="random_phase_discard_and_ask_again_3d", discard=True, expect="pass", vdim=2,
+          script=[["ask", 11, 1], ["tell_nth", 9], ["tell_nth", 9], ["remove_unfinished"], ["ask", 11, 1], ["tell_all"], ["ask", 2, 1]]),
     _rect([(0, 1e-3), (10, 1000), (0, 1)], name="box_aspect_1e6", fn="linear",
           script=[op for _ in range(26) for op in (["ask", 1, 1], ["tell_all"])]),
 ]
